@@ -136,7 +136,8 @@ def check(st, scn):
         late_records, late_ents = build(k, vc, mc, rotated, strip=True, ids=scn.get("ids", "distinct"), shape=scn.get("shape"))
         first = asm.run_assemble(late_ents["v"], [late_ents[n] for n in order])
         if first.kind != "product":
-            raise HarnessError("citation-free assembly fails: {}".format(first.brief()))
+            st.violation("assembly", "citation-free-assembly-fails-" + str(first.exc_name), scn, "product", first.brief())
+            return False
         for n_, r_ in late_records.items():
             twin = records[n_]
             if "references" in twin.annotations:
@@ -148,7 +149,9 @@ def check(st, scn):
     before = {n: snapshot.record_snapshot(r) for n, r in records.items()}
     po = asm.run_assemble(plain_ents["v"], [plain_ents[n] for n in order])
     if po.kind != "product":
-        raise HarnessError("citation-free assembly fails: {}".format(po.brief()))
+        # (the same plasmids without a single citation: a failure here is not about citations, but it still is an answer)
+        st.violation("assembly", "citation-free-assembly-fails-" + str(po.exc_name), scn, "product", po.brief())
+        return False
     # model: which retained features cite which reference contents
     expect = {}
     for label, c, pool in (("v-kept", vc["kept"], vc["refs"]), ("v-kept2", vc["kept2"], vc["refs"]),
